@@ -7,7 +7,7 @@
    vid_to_bit = convertVerticallIDToBit; bit_to_vid = convertBitToVerticalID; vox_alt f v = float64(f)*2^25/2^v. *)
 From Coq Require Import ZArith Reals Lia Floats List Bool String.
 From Flocq Require Import Core.
-From SID Require Import Base Str Ids F64 ExactRef PointF BitAlt BitAltRef BitAltR BitAltF BitAltV BitAltT.
+From SID Require Import Base Str Ids Wire F64 ExactRef PointF BitAlt BitAltRef BitAltR BitAltF BitAltV BitAltT DC17.
 Import ListNotations.
 Open Scope Z_scope.
 
@@ -252,7 +252,33 @@ Theorem C17_reverse_reference_is_exact : forall vz k oz dmn dmx, 0 <= vz ->
 Proof. exact rev_ref_real. Qed.
 Print Assumptions C17_reverse_reference_is_exact.
 
+(* ---------- 10. histories. Every theorem above is about a Gallina function: its answer depends on the arguments of the call and on nothing else,
+   so the model gives the same answer after ANY history of earlier calls. The run-time check therefore judges each step of a history (a case
+   "Sequence": calls executed back to back in one process, with the caller scribbling over its own arguments and results in between) exactly
+   like a standalone call: the verdict on step i is `judge` of that step's own arguments and its own observed output, whatever precedes or
+   follows it. (That the CODE behaves the same in every history is what those cases test; it is not a theorem.) ---------- *)
+Theorem C17_history_steps_judged_independently : forall oracle pre opre s o post opost, List.length pre = List.length opre ->
+  nth_error (seq_judge oracle (pre ++ s :: post) (opre ++ o :: opost)) (List.length pre) = Some (judge oracle s o).
+Proof. exact seq_judge_independent. Qed.
+Print Assumptions C17_history_steps_judged_independently.
+Theorem C17_history_one_verdict_per_step : forall oracle steps obs, List.length steps = List.length obs ->
+  List.length (seq_judge oracle steps obs) = List.length steps.
+Proof. exact seq_judge_length. Qed.
+Print Assumptions C17_history_one_verdict_per_step.
+
 (* ---------- non-vacuity ---------- *)
+(* a two-step history: the second step (calcBitIndex 256 10 500 0, observed 524) gets the verdict of the standalone call, which accepts it;
+   a wrong observation (523) in the same place is rejected, whatever the first step was *)
+Example C17_ex_history :
+  let o : oracle_t := fun _ _ => VNil in
+  let s1 := VL [VS "convertVerticallIDToBit"; VL [VZ 13; VZ (-6); VZ 5; VF 500; VF 0]; VB true] in
+  let s2 := VL [VS "calcBitIndex"; VL [VF 256; VZ 10; VF 500; VF 0]; VB false] in
+  nth_error (seq_judge o [s1; s2] [VL [VZ 0]; VZ 524]) 1 = Some (judge o s2 (VZ 524)) /\
+  v_corr (judge o s2 (VZ 524)) = true /\ v_prop (judge o s2 (VZ 524)) = true /\
+  v_prop (d_sequence o [VL [s1; s2]] (VL [VL [VL [VZ 0]; VZ 524]; VB true])) = true /\
+  v_prop (d_sequence o [VL [s1; s2]] (VL [VL [VL [VZ 0]; VZ 523]; VB true])) = false /\
+  v_prop (d_sequence o [VL [s1; s2]] (VL [VL [VL [VZ 0]; VZ 524]; VB false])) = false.
+Proof. vm_compute. repeat split. Qed.
 (* the literals of the unit tests, and the documentation's voxel 26/51 in the range +-256 at zoom 7 *)
 Example C17_ex_calc : calc_bit_index 256 10 500 0 = 524 /\ calc_bit_index 0 10 256 (-256) = 512 /\ calc_bit_index (-200) 10 0 (-500) = 614 /\
   calc_bit_index 2560 10 500 0 = 1023 /\ calc_bit_index (-256) 10 500 0 = 0.
